@@ -83,9 +83,13 @@ func H_pure() {
 			t.MoveNext()
 		}
 		steps := vInt("steps", 1, vParamInt("steps"))
-		vHistoryStep(e, doc, "h1", max)
+		hdoc := doc
+		if vHasParam("twodocs") {
+			hdoc = vDocNamed("B") // the history runs on another document
+		}
+		vHistoryStep(e, hdoc, "h1", max)
 		if steps > 1 {
-			vHistoryStep(e, doc, "h2", max)
+			vHistoryStep(e, hdoc, "h2", max)
 		}
 		if steps > 2 {
 			vHistoryStep(e, doc, "h3", max)
